@@ -20,11 +20,11 @@ CLAIMED = {
             'Trusted: clang AST; the recurrence extraction of the shape engine; worker contracts of lsv/contracts.json; square_to_condensed_index injective on i < k (assumption).',
             'DESIGN.md 2/E3, 3/C13'),
     'C11': ('shape', 'other', 'symbolic extent/index abstract interpretation of every dense kernel under its frozen conformability contract (rejected-shape baseline), with callee contracts instantiated as caller obligations; three-valued obligations with shape witnesses',
-            'Decides the all-shapes memory/extent clause: for every shape admitted by the kernel\'s contract and own guards (including empty, single-row/column and non-square shapes) every subscript is in range and every internal call is conformable. The numeric value of the kernels, the algebraic laws, ordering by key and the coverage of the inner dimension by unrolled loop + tail are NOT decided.',
+            'Decides the all-shapes memory/extent clause: for every shape admitted by the kernel\'s contract and own guards (including empty, single-row/column and non-square shapes) every subscript is in range, every internal call is conformable, and the two factors of every product term of a contraction use the same summation index. The numeric value of the kernels, the algebraic laws, ordering by key and the coverage of the inner dimension by unrolled loop + tail are NOT decided.',
             'Trusted: clang AST; lsv/contracts.json (each precondition hand-confirmed with a reason); no aliasing between distinct parameters; LP64.',
             'DESIGN.md 2/E1, 3/C11'),
     'C12': ('shape', 'other', 'guard-dominance rule for pivots (division by a diagonal element must be tested or preceded by a pivot-row store) plus symbolic extent analysis of the LAPACK wrappers including the documented argument sizes of dgetrf/dgetri/dgesdd/dgeev',
-            'Decides the pivoting-required clause structurally (no elimination ratio divides by an untested, unexchanged diagonal) and the buffer clause (raw column-major buffers, IPIV, WORK/LWORK, s/u/vt sizes for square and rectangular input are large enough; conversions stay in range). M M^-1 = I, Penrose conditions, eigen-equations and reconstruction are numeric and NOT decided.',
+            'Decides the pivoting-required clause structurally (no elimination ratio divides by an untested, unexchanged diagonal; a running pivot maximum compared with fabs holds magnitudes only) and the buffer clause (raw column-major buffers, IPIV, WORK/LWORK, s/u/vt sizes for square and rectangular input are large enough; conversions stay in range). M M^-1 = I, Penrose conditions, eigen-equations and reconstruction are numeric and NOT decided.',
             'Trusted: clang AST; contracts.json; LAPACK writes only within its documented argument sizes (table in lsv/shapecheck.py).',
             'DESIGN.md 2/E1,E7c, 3/C12'),
     'C14': ('shape', 'other', 'symbolic extent/index abstract interpretation (path-sensitive, polynomial shape atoms, row/slot segment heap model, three-valued obligations with shape witnesses) applied to every public container operation from an arbitrary invariant-satisfying state, plus post-invariant, lifetime, deep-copy and slot typestate rules',
@@ -44,7 +44,7 @@ CLAIMED = {
             'Trusted: clang AST; ApproxEq/MISSING recognised structurally; role seeds of lsv/layout.py.',
             'DESIGN.md 2/E5,E7, 3/C15'),
     'C08': ('offsets', 'other', 'affine-offset abstract interpretation (every small integer = class index + polynomial in class_start, branch-sensitive) checked at label/index comparisons, label stores and per-class subscripts; def-use rules dead-input and overwritten-store',
-            'Decides the label/index clause for both numbering conventions (a returned label is index + class_start, every per-class array is subscripted by an index, comparisons pair a label with index + class_start) and the input-relevance clause of the one-vs-rest statistics (both label vectors reach the ROC inputs). Priors, means, arg-max optimality, affine invariance and AUC values are NOT decided.',
+            'Decides the label/index clause for both numbering conventions (a returned label is index + class_start, every per-class array is subscripted by an index, comparisons pair a label with index + class_start), the arg-max search compares against an element of the score row or a true lower bound and the input-relevance clause of the one-vs-rest statistics (both label vectors reach the ROC inputs). Priors, means, arg-max optimality, affine invariance and AUC values are NOT decided.',
             'Trusted: clang AST; class_start in {0,1}; label containers seeded by parameter position (LDA/LDAError #1, LDAPrediction #5).',
             'DESIGN.md 2/E8, 3/C08'),
     'C16': ('ioflow', 'other', 'writer/reader agreement by dataflow over the call sites (table literal, codec, model field), stream-grammar abstraction of each (de)serialiser compared structurally, SQL effect classification of the constant strings reaching sqlite3_exec/prepare with a must-precede (truncate-before-insert) check, mod/ref purity of the writers, format-precision check',
@@ -64,7 +64,7 @@ CLAIMED = {
             'Trusted: clang AST, structured control flow, no aliasing of a container under two names inside one loop, thread counts >= 1. Unknown loop shapes are violations (no certificate), vanished roots are ANALYSIS-BROKEN.',
             'DESIGN.md 2/E4, 3/C18'),
     'C06': ('threads', 'other', 'whole-program call graph + global-write effect analysis from every pthread entry (thread escape), must-precede dataflow for seeding, structural create/join pairing, polynomial seed-schedule check',
-            'Decides the race/seeding/join clauses only: no reachable unsynchronised write to shared mutable state from any of the 15 thread entries; RNG state touched only by the RNG API; every worker seeds (from its argument) before it draws; all 13 dispatch regions join exactly what they create before freeing/reading; the bootstrap seed is schedule-invariant. Bit-identity of floating-point results and rounding-level equality across thread counts are NOT decided.',
+            'Decides the race/seeding/join clauses only: no reachable unsynchronised write to shared mutable state from any of the 15 thread entries; RNG state touched only by the RNG API; every worker seeds (from its argument) before it draws; all 13 dispatch regions join exactly what they create before freeing/reading; the bootstrap seed is schedule-invariant; workers store only through per-worker argument fields (T4); per-worker accumulators are fresh in every batch so nothing depends on how iterations are cut into batches (T6). Bit-identity of floating-point results and rounding-level equality across thread counts are NOT decided.',
             'Trusted: clang AST; structured control flow (no goto/switch, re-checked); pthread_create/join as the only thread primitives; mutex regions recognised lexically.',
             'DESIGN.md 2/E2, 3/C06'),
     'C20': ('abi', 'proof', 'compile-fail witnesses generated from the Python ast (redeclaration compatibility, _Static_assert on sizeof/offsetof/types), clang -fsyntax-only as oracle',
